@@ -114,7 +114,10 @@ TargetOK(pre, c, post) ==
     [] c.op = "SupNew" -> post[c.dst] = SupV(Sup(pre[c.grid].g, c.s, c.e))
     [] c.op = "SplNew" -> post[c.dst] = SplV(Spl(pre[c.grid].g, c.s, c.e, c.o, c.c))
     [] c.op \in {"Copy", "CopyAssign"} -> post[c.dst] = pre[c.src]
-    [] c.op \in {"Move", "MoveAssign"} -> post[c.dst] = pre[c.src] /\ MovedFromOK(pre[c.src], post[c.src])
+    [] c.op \in {"Move", "MoveAssign"} ->
+         \* x = std::move(x): the object stays a valid one of its kind on its grid - untouched or as a moved-from object is
+         IF c.dst = c.src THEN post[c.dst] = pre[c.dst] \/ MovedFromOK(pre[c.dst], post[c.dst])
+         ELSE post[c.dst] = pre[c.src] /\ MovedFromOK(pre[c.src], post[c.src])
     [] c.op = "AssignLower" -> SameFnPost(AsSpl(pre[c.src]), AsSpl(post[c.dst]), pre[c.dst].o)
     [] c.op = "AddAssign" -> IsSpl(post[c.dst]) /\ AddPost(AsSpl(pre[c.dst]), AsSpl(pre[c.src]), AsSpl(post[c.dst]))
     [] c.op = "SubAssign" -> IsSpl(post[c.dst]) /\ SubPost(AsSpl(pre[c.dst]), AsSpl(pre[c.src]), AsSpl(post[c.dst]))
